@@ -115,6 +115,34 @@ func newVerifier(P *Program) *Verifier {
 
 func (v *Verifier) assumeNote(s string) { v.assumed[s] = true }
 
+// evalInv evaluates a loop invariant; an invariant that names something the function no longer has (a renamed
+// or removed variable) is reported as an undecided obligation of its own instead of ending the whole function,
+// so that the other obligations still say what else changed. Dropping an invariant only removes a hypothesis.
+func (v *Verifier) evalInv(env *SpecEnv, inv Clause, obName string) (g *Term) {
+	defer func() {
+		if r := recover(); r != nil {
+			u, ok := r.(unsupported)
+			if !ok || !strings.Contains(u.msg, "unknown identifier") {
+				panic(r)
+			}
+			g = nil
+			if obName != "" {
+				ob, ok := v.obls[obName]
+				if !ok {
+					ob = &Obligation{Name: obName, Kind: "inv", Clause: inv.Text, Fn: v.top}
+					if v.top != nil {
+						ob.Func = funcKey(v.top)
+					}
+					v.obls[obName] = ob
+					v.order = append(v.order, obName)
+				}
+				ob.Failure = u.msg
+			}
+		}
+	}()
+	return env.evalBool(inv.Expr)
+}
+
 func (v *Verifier) addOb(name, kind, clause string, st *State, goal *Term, cover bool) {
 	if os.Getenv("GOVC_DEBUG") == "6" && kind == "post" {
 		fmt.Fprintf(os.Stderr, "addOb %s goal=%s\n", name, truncate(goal.String(), 600))
@@ -665,8 +693,10 @@ func (v *Verifier) jump(st *State, b *ssa.BasicBlock) bool {
 	}
 	if !back {
 		for i, inv := range spec.Invariants {
-			g := env.evalBool(inv.Expr)
-			v.addOb(fmt.Sprintf("inv:%s:init#%d", name, i+1), "inv", inv.Text, st, g, false)
+			on := fmt.Sprintf("inv:%s:init#%d", name, i+1)
+			if g := v.evalInv(env, inv, on); g != nil {
+				v.addOb(on, "inv", inv.Text, st, g, false)
+			}
 		}
 		ci := &cutInfo{phis: map[*ssa.Phi]*Term{}, spec: spec, ordinal: ord, modifies: map[string]bool{}}
 		for _, p := range phis {
@@ -724,7 +754,9 @@ func (v *Verifier) jump(st *State, b *ssa.BasicBlock) bool {
 			env.fr2 = fr
 		}
 		for _, inv := range spec.Invariants {
-			st.assume(env.evalBool(inv.Expr))
+			if g := v.evalInv(env, inv, ""); g != nil {
+				st.assume(g)
+			}
 		}
 		{
 			hv := v.havocked
@@ -748,8 +780,10 @@ func (v *Verifier) jump(st *State, b *ssa.BasicBlock) bool {
 	}
 	st.lastCut = ci.pcLen // this loop's own cut, not an inner loop's
 	for i, inv := range spec.Invariants {
-		g := env.evalBool(inv.Expr)
-		v.addOb(fmt.Sprintf("inv:%s:keep#%d", name, i+1), "inv", inv.Text, st, g, false)
+		on := fmt.Sprintf("inv:%s:keep#%d", name, i+1)
+		if g := v.evalInv(env, inv, on); g != nil {
+			v.addOb(on, "inv", inv.Text, st, g, false)
+		}
 	}
 	if spec.Decreases != nil {
 		m := env.eval(spec.Decreases.Expr).T
@@ -811,12 +845,32 @@ func (v *Verifier) havocNamed(st *State, fr *Frame, name string) {
 		st.setHeap(cell, Store(st.getHeap(cell), ref, f))
 		return
 	}
+	if v.goneLocal(fr, name) {
+		return
+	}
 	cell := v.cellSortByName(v.pkgOf(fr.fn), name)
 	nh := Fresh(heapName(cell), heapSort(cell))
 	if v.havocked != nil {
 		v.havocked[nh] = true
 	}
 	st.setHeap(cell, nh)
+}
+
+// goneLocal: a modifies target written like a local variable (a plain lower-case identifier) that is neither a
+// variable of the function any more nor a type. Nothing is havocked and nothing is permitted for it: a write the
+// clause was meant to cover then shows up as a frame obligation instead of ending the function as undecided.
+func (v *Verifier) goneLocal(fr *Frame, name string) bool {
+	if name == "" || strings.ContainsAny(name, ".[]*") || !(name[0] >= 'a' && name[0] <= 'z') {
+		return false
+	}
+	switch name {
+	case "int", "uint", "uint8", "uint32", "int64", "bool", "string", "float64":
+		return false
+	}
+	if pkg := v.pkgOf(fr.fn); pkg != nil && pkg.Scope().Lookup(name) != nil {
+		return false
+	}
+	return true
 }
 
 func (v *Verifier) pkgOf(fn *ssa.Function) *types.Package {
@@ -977,6 +1031,9 @@ func (v *Verifier) frameCheck(st *State, base map[string]*Term, fresh []*Term, l
 				cells[heapName(cell)] = append(cells[heapName(cell)], ref)
 				continue
 			}
+		}
+		if v.goneLocal(fr, a) {
+			continue
 		}
 		allow[heapName(v.cellSortByName(v.pkgOf(fr.fn), a))] = true
 	}
